@@ -4,7 +4,8 @@
    = 2,099,999,986,350,000 (via C16). *)
 From stdpp Require Import gmap.
 From Coq Require Import NArith ZArith Lia.
-From SkV Require Import Bytes Codec Ledger ChainState Pow Validate ChainDefs ValidProofs.
+From SkV Require Import Bytes Codec Ledger ChainState Pow Validate ChainDefs ValidProofs MiscProofs.
+From SkV Require Gen_Params.
 
 Theorem C02_rules : forall sha scrypt blake verify P s b now s',
   add_block sha scrypt blake verify P s b now = Ok s' -> FV P b ->
@@ -28,6 +29,15 @@ Proof. exact supply_bound. Qed.
 Theorem C02_supply_from_empty : forall P, SupplyInv P cs_empty.
 Proof. exact supply_inv_empty. Qed.
 
+(* with the halving interval and initial subsidy REGENERATED from params.py: along every history validated from the
+   empty state, the unspent total at every stored block never exceeds 2,099,999,986,350,000 sashimi (uses C16) *)
+Theorem C02_max : forall P, Z.of_N (p_interval P) = Gen_Params.SUBSIDY_HALVING_INTERVAL ->
+  Z.of_N (p_initial P) = Gen_Params.INITIAL_SUBSIDY ->
+  forall sha scrypt blake verify s, validated_from sha scrypt blake verify P cs_empty s ->
+  forall h b u, cs_blocks s !! h = Some b -> cs_utxo s !! h = Some u -> (utxo_total u <= 2099999986350000)%N.
+Proof. exact supply_never_exceeds_max_reachable. Qed.
+
 Print Assumptions C02_rules.
+Print Assumptions C02_max.
 Print Assumptions C02_step.
 Print Assumptions C02_supply.
